@@ -36,7 +36,14 @@ func genName(rng *hx.Rng, made []string) string {
 	d := 1 + rng.Intn(3)
 	var p []string
 	for i := 0; i < d; i++ {
-		p = append(p, rng.Pick(atoms))
+		switch {
+		case i > 0 && rng.Chance(20):
+			p = append(p, p[rng.Intn(i)]) // the same segment again further down: a/b/a
+		case i > 0 && rng.Chance(15):
+			p = append(p, rng.Pick([]string{"x", "home", "q"})+p[rng.Intn(i)]) // a segment ending in an earlier one: work/homework
+		default:
+			p = append(p, rng.Pick(atoms))
+		}
 	}
 	n := strings.Join(p, "/")
 	if rng.Chance(8) {
